@@ -225,6 +225,7 @@ def run_prio(ctx: Ctx) -> RuleResult:
     repo = ctx.repo
     res = RuleResult('R-PRIO-SIBLINGS', 'priority modes treat rules and terminals alike; max-aggregation matches the child order; '
                                         'both child slots contribute; documented sort key')
+    res.default_props = ['C05']
     init = repo.func('lark.lark:Lark.__init__')
     branches = []
     for n in init.body_nodes():
@@ -288,6 +289,30 @@ def run_prio(ctx: Ctx) -> RuleResult:
         res.finding(gc, rule_calls[0] if rule_calls else gc.node, 'the alternatives of a rule share one RuleOptions object (%s) while priority=\'invert\' '
                     'negates rule.options.priority in place per Rule: a rule with two alternatives is negated twice and keeps its priority'
                     % (bad_[:2] if rule_calls and len(rule_calls) == 1 else '?'), construct='prio:options-shared')
+    # ... and that object is a copy of the options of the rule the alternative belongs to (its `?`, `!`, priority, template source),
+    # whichever arm builds it: a bare RuleOptions(...) would drop them for alternatives with an unmatched [..]
+    if rule_calls and len(rule_calls) == 1 and same_loop:
+        loop_ = next(a for a in ancestors(rule_calls[0]) if isinstance(a, ast.For) and any(d is y for d in same_loop for y in ast.walk(a)))
+        # the rule's options: the name unpacked from the rules list in the enclosing loop
+        outer_names = set()
+        for a in ancestors(rule_calls[0]):
+            if isinstance(a, ast.For):
+                outer_names |= {x.id for x in ast.walk(a.target) if isinstance(x, ast.Name)}
+                for st_ in a.body:
+                    if isinstance(st_, ast.Assign) and isinstance(st_.targets[0], (ast.Tuple, ast.List)):
+                        outer_names |= {x.id for x in ast.walk(st_.targets[0]) if isinstance(x, ast.Name)}
+        optname = 'options' if 'options' in outer_names else None
+
+        def derives(e) -> bool:
+            return optname is not None and any(isinstance(x, ast.Call) and isinstance(x.func, ast.Name) and x.func.id in ('copy', 'deepcopy')
+                                               and x.args and norm(x.args[0]) == optname for x in ast.walk(e))
+        bad2 = [norm(d) for d in same_loop if not derives(d.value)]
+        ok2 = optname is not None and not bad2
+        res.ob('%s %s' % (gc.loc(), gc.qual), 'the RuleOptions of every alternative is a copy of its rule\'s options on every arm', ok2, props=['C03', 'C05'])
+        if not ok2:
+            res.finding(gc, rule_calls[0], 'an alternative\'s RuleOptions is not copied from the options of its rule (%s): the alternative loses the '
+                        'rule\'s `?` / `!` modifiers and priority (e.g. the alternative of `?x: [A] B` in which [A] is unmatched is no longer inlined)'
+                        % bad2[:2], construct='prio:options-derived', props=['C03', 'C05'])
     # helper rules generated by EBNF expansion carry no priority of their own (it would be added once per repetition)
     ro = [x for x in gc.body_nodes() if isinstance(x, ast.Assign) and len(x.targets) == 1 and norm(x.targets[0]).endswith('.rule_options')
           and 'ebnf' in norm(x.targets[0])]
